@@ -72,9 +72,9 @@ def spanDigits : Str → Str × Str
   | [] => ([], [])
   | c :: r => if isDigit c then ((c :: (spanDigits r).1), (spanDigits r).2) else ([], c :: r)
 
-/-- a duration value: a decimal number of seconds (optional sign, digits, optionally `.` digits) -/
+/-- a duration value: a decimal number of seconds (digits, optionally `.` digits). No sign: a length of time is not
+negative (`'-259200'`, which the model emits for `-3 days` / TIMEX `P-3D`, is rejected), no exponent. -/
 def isNumber (s : Str) : Bool :=
-  let s := match s with | 45 :: r => r | _ => s
   match spanDigits s with
   | (ip, []) => !ip.isEmpty
   | (ip, 46 :: fp) => !ip.isEmpty && !fp.isEmpty && fp.all isDigit
@@ -135,71 +135,6 @@ def shapeOK (v : Value) : Bool :=
   else if v.type = sSet then true
   else false
 
-/-- `THH`, `THH:MM`, `THH:MM:SS` (definite time TIMEX) → the `HH:MM:SS` it denotes, if in range -/
-def timexTime (t : Str) : Option Str :=
-  match t with
-  | 84 :: rest =>
-    let full : Option Str :=
-      match rest with
-      | [a, b] => some ([a, b] ++ [58, 48, 48, 58, 48, 48])
-      | [a, b, 58, c, d] => some ([a, b, 58, c, d] ++ [58, 48, 48])
-      | [a, b, 58, c, d, 58, e, f] => some [a, b, 58, c, d, 58, e, f]
-      | _ => none
-    match full with
-    | some s => if (parseTime s).isSome then some s else none
-    | none => none
-  | _ => none
-
-/-- C11 agreement: when the TIMEX is fully definite (`YYYY-MM-DD`, `THH[:MM[:SS]]`, `YYYY-MM-DDTHH[:MM[:SS]]`) the
-value equals it. Only plain `value`s are constrained (a before/after modifier turns the value into a start/end). -/
-def definiteOK (v : Value) : Bool :=
-  match v.value with
-  | none => true
-  | some val =>
-    if val = sNotResolved then true
-    else if v.type = sDate then
-      (match parseDate v.timex with | some _ => val = v.timex | none => true)
-    else if v.type = sTime then
-      (match timexTime v.timex with | some s => val = s | none => true)
-    else if v.type = sDateTime then
-      (if v.timex.length ≥ 13 ∧ v.timex.getD 10 0 = 84 then
-        match parseDate (v.timex.take 10), timexTime (v.timex.drop 10) with
-        | some _, some s => val = v.timex.take 10 ++ [32] ++ s
-        | _, _ => true
-       else true)
-    else true
-
-/-- `p` occurs in `s` -/
-def hasSub (s p : Str) : Bool := (List.range (s.length + 1)).any fun i => (s.drop i).take p.length = p
-
-def sYear1 : Str := [48, 48, 48, 49, 45]   -- '0001-'
-
-/-- C11 ("a non-existent date yields 'not resolved', never an invalid value"): the minimum date `0001-01-01` is the
-implementation's marker for a date that does not exist, and a value computed FROM the marker (`0001-02-01` = marker plus
-one month, `0001-01-08` = marker plus a week …) is as invalid as the marker itself.  No `value` / `start` / `end` may lie
-in year 0001 unless the TIMEX itself names that year. -/
-def sentinelOK (v : Value) : Bool :=
-  let bad (o : Option Str) : Bool := match o with | some s => s.take 5 = sYear1 | none => false
-  !(bad v.value || bad v.start || bad v.stop) || hasSub v.timex [48, 48, 48, 49]
-
-def sPrefix : Str := [100, 97, 116, 101, 116, 105, 109, 101, 86, 50, 46]   -- 'datetimeV2.'
-
-/-- C11: the entity's type name equals `datetimeV2.` ++ the type of (each of) its values. -/
-def typeNameOK (typeName : Str) (vs : List Value) : Bool := vs.all fun v => typeName = sPrefix ++ v.type
-
-def wellFormed (typeName : Str) (vs : List Value) : Bool :=
-  typeNameOK typeName vs && vs.all fun v => shapeOK v && definiteOK v
-
-/-! ### C10: `(start,end,duration)` TIMEX triples -/
-
-def splitOn (sep : Nat) : Str → List Str
-  | [] => [[]]
-  | c :: rest =>
-    if c = sep then [] :: splitOn sep rest
-    else match splitOn sep rest with
-      | [] => [[c]]
-      | w :: ws => (c :: w) :: ws
-
 /-- decimal amount `N` or `N.F` as a rational (num, den) -/
 def amount (s : Str) : Option (Nat × Nat) :=
   match spanDigits s with
@@ -254,6 +189,107 @@ def ptSeconds : Nat → Str → Option (Nat × Nat)
        | some a, some k, some (n, d) => some (a * k * d + n, d)
        | _, _, _ => none)
     | _ => none
+
+/-- `THH`, `THH:MM`, `THH:MM:SS` (definite time TIMEX) → the `HH:MM:SS` it denotes, if in range -/
+def timexTime (t : Str) : Option Str :=
+  match t with
+  | 84 :: rest =>
+    let full : Option Str :=
+      match rest with
+      | [a, b] => some ([a, b] ++ [58, 48, 48, 58, 48, 48])
+      | [a, b, 58, c, d] => some ([a, b, 58, c, d] ++ [58, 48, 48])
+      | [a, b, 58, c, d, 58, e, f] => some [a, b, 58, c, d, 58, e, f]
+      | _ => none
+    match full with
+    | some s => if (parseTime s).isSome then some s else none
+    | none => none
+  | _ => none
+
+/-- seconds, as a rational `(num, den)`, denoted by a duration TIMEX whose length is fixed: `PT…` with one or several
+H / M / S components, `P<n>D`, `P<n>W` (amounts may be decimals). Months and years (`P1M`, `P1Y`), open amounts (`PXD`),
+signed amounts (`P-3D`) and calendar compounds denote no fixed number of seconds: `none`. -/
+def durationSeconds (t : Str) : Option (Nat × Nat) :=
+  match t with
+  | 80 :: 84 :: rest => if rest = [] then none else ptSeconds (rest.length + 4) rest
+  | _ =>
+    match parseDuration t with
+    | some ((n, d), .D) => some (n * 86400, d)
+    | some ((n, d), .W) => some (n * 604800, d)
+    | _ => none
+
+/-- the point `YYYY-MM-DD HH:MM:SS` a definite datetime TIMEX `YYYY-MM-DDTHH[:MM[:SS]]` denotes -/
+def timexDateTime (t : Str) : Option Str :=
+  if t.length ≥ 13 ∧ t.getD 10 0 = 84 then
+    match parseDate (t.take 10), timexTime (t.drop 10) with
+    | some _, some s => some (t.take 10 ++ [32] ++ s)
+    | _, _ => none
+  else none
+
+/-- C11 agreement: when the TIMEX is fully definite the value equals it.
+* a plain `value` of a date / time / datetime whose TIMEX is `YYYY-MM-DD`, `THH[:MM[:SS]]`, `YYYY-MM-DDTHH[:MM[:SS]]`
+  is that date / time / datetime;
+* a `duration` value whose TIMEX has a fixed length (`durationSeconds`) is that number of seconds (compared as
+  rationals: `PT1.5H` ↔ `5400`); a value that is not a decimal number does not equal it;
+* a before / after / since / until modifier turns a point into an open range (`type` becomes the range type, the TIMEX
+  stays the point's, exactly one of `start` / `end` is written): the end that is written is still the point the TIMEX
+  names. -/
+def definiteOK (v : Value) : Bool :=
+  match v.value with
+  | none =>
+    if v.start.isSome != v.stop.isSome then
+      let pt : Option Str :=
+        if v.type = sDateRange then (parseDate v.timex).map fun _ => v.timex
+        else if v.type = sTimeRange then timexTime v.timex
+        else if v.type = sDateTimeRange then timexDateTime v.timex
+        else none
+      match pt with
+      | some s => optOk (fun x => x = s) v.start && optOk (fun x => x = s) v.stop
+      | none => true
+    else true
+  | some val =>
+    if val = sNotResolved then true
+    else if v.type = sDate then
+      (match parseDate v.timex with | some _ => val = v.timex | none => true)
+    else if v.type = sTime then
+      (match timexTime v.timex with | some s => val = s | none => true)
+    else if v.type = sDateTime then
+      (match timexDateTime v.timex with | some s => val = s | none => true)
+    else if v.type = sDuration then
+      (match durationSeconds v.timex with
+       | some (n, d) => (match amount val with | some (a, b) => a * d = n * b | none => false)
+       | none => true)
+    else true
+
+/-- `p` occurs in `s` -/
+def hasSub (s p : Str) : Bool := (List.range (s.length + 1)).any fun i => (s.drop i).take p.length = p
+
+def sYear1 : Str := [48, 48, 48, 49, 45]   -- '0001-'
+
+/-- C11 ("a non-existent date yields 'not resolved', never an invalid value"): the minimum date `0001-01-01` is the
+implementation's marker for a date that does not exist, and a value computed FROM the marker (`0001-02-01` = marker plus
+one month, `0001-01-08` = marker plus a week …) is as invalid as the marker itself.  No `value` / `start` / `end` may lie
+in year 0001 unless the TIMEX itself names that year. -/
+def sentinelOK (v : Value) : Bool :=
+  let bad (o : Option Str) : Bool := match o with | some s => s.take 5 = sYear1 | none => false
+  !(bad v.value || bad v.start || bad v.stop) || hasSub v.timex [48, 48, 48, 49]
+
+def sPrefix : Str := [100, 97, 116, 101, 116, 105, 109, 101, 86, 50, 46]   -- 'datetimeV2.'
+
+/-- C11: the entity's type name equals `datetimeV2.` ++ the type of (each of) its values. -/
+def typeNameOK (typeName : Str) (vs : List Value) : Bool := vs.all fun v => typeName = sPrefix ++ v.type
+
+def wellFormed (typeName : Str) (vs : List Value) : Bool :=
+  typeNameOK typeName vs && vs.all fun v => shapeOK v && definiteOK v
+
+/-! ### C10: `(start,end,duration)` TIMEX triples -/
+
+def splitOn (sep : Nat) : Str → List Str
+  | [] => [[]]
+  | c :: rest =>
+    if c = sep then [] :: splitOn sep rest
+    else match splitOn sep rest with
+      | [] => [[c]]
+      | w :: ws => (c :: w) :: ws
 
 /-- a definite point inside a triple: date, time, or datetime `YYYY-MM-DDTHH[:MM[:SS]]` → (ordinal or 0, seconds) -/
 def parsePoint (s : Str) : Option (Option Date × Option Nat) :=
